@@ -126,6 +126,8 @@ class P(MetProp):
             op = rng.choice(ARITH + CMP + ["/", "/", "%", "-"])
             rb = op in CMP and rng.random() < 0.4
             c = rng.choice([0, 2, 0.5, 3, -2, -0.5, -2, -3])
+            if op in CMP:
+                c = rng.choice([1, 2, 2, 3, 1])          # a threshold that some series meet exactly: > and >=, < and <= differ there, on either side
             left = rng.random() < 0.5
             lit = m.mlit(c)
             e = m.mbin(op, lit, L, rb) if left else m.mbin(op, L, lit, rb)
@@ -136,6 +138,9 @@ class P(MetProp):
             c = rng.choice([10, 3, 7, 0.1, -10, 0.3, 1e-3])
             op = rng.choice(["/", "/", "/", "%", "*", "-"])
             left = rng.random() < 0.3
+            if rng.random() < 0.25:
+                # the scalar equal to the value, under every ordering comparison, on either side
+                op, c, left = rng.choice(CMP), x, rng.random() < 0.6
             if op == "/" and rng.random() < 0.7:
                 # pairs for which x/s and x*(1/s) differ in the last bit
                 x, c = rng.choice([(3, 10), (3, -10), (6, 10), (7, 10), (7, 3), (7, 6), (12, 10), (5, 3), (5, 7), (5, 49), (49, 49), (9, 7), (13, 7)])
